@@ -208,3 +208,8 @@ Definition transfer_ok (q : list bytes) (t : transfer) : Prop :=
 Definition seg_ext_ok (q : list bytes) (g : xseg) : Prop :=
   exists b, bundle_of q (xs_id g) = Some b /\
             xs_ext g = if has_start (xs_flags g) then total_length_ext (N.of_nat (length b)) else [].
+
+(** END-flagged XFER_ACK messages of a frame sequence: (id, acknowledged length). *)
+Definition end_ack_of (f : frame) : list (N * N) :=
+  match f with FMsg (MXferAck fl id len) => if has_end fl then [(id, len)] else [] | _ => [] end.
+Definition end_acks (l : list frame) : list (N * N) := flat_map end_ack_of l.
